@@ -51,6 +51,7 @@ impl Layer for TL {
     fn create(&mut self, _c: &BuildContext<B>, layer_path: &Path) -> Result<LayerResult<Meta>, GenericError> {
         self.log.borrow_mut().push(format!("create(empty={})", fs::read_dir(layer_path).map(|mut d| d.next().is_none()).unwrap_or(false)));
         fs::write(layer_path.join(format!("created-{}", self.step.payload)), b"payload").unwrap();
+        fs::create_dir_all(layer_path.join("bin")).unwrap(); fs::write(layer_path.join("bin/tool"), b"t").unwrap();
         Ok(payload_result(self.step.payload, &self.src))
     }
     fn existing_layer_strategy(&mut self, _c: &BuildContext<B>, d: &LayerData<Meta>) -> Result<ExistingLayerStrategy, GenericError> {
@@ -160,6 +161,7 @@ fn run(seq: &[Step], r: &mut Report) {
                 if on_disk.as_ref().map(|l| &l.metadata) != Some(&want_meta) { fail("metadata", "the metadata on disk is what the call-back returned", format!("{want_meta:?}"), format!("{on_disk:?}")); }
                 let mut want_files = if outcome == "create" { Tree::new() } else { files(&before) };
                 want_files.insert(PathBuf::from(format!("{}-{p}", if outcome == "create" { "created" } else { "updated" })), if outcome == "create" { "file:[112, 97, 121, 108, 111, 97, 100]".into() } else { "file:[117]".into() });
+                if outcome == "create" { want_files.insert(PathBuf::from("bin"), "dir".into()); want_files.insert(PathBuf::from("bin/tool"), "file:[116]".into()); }
                 if files(&after) != want_files { fail("files", "a created layer starts from an empty directory, an updated one keeps its files", format!("{want_files:?}"), format!("{:?}", files(&after))); }
             }
             _ => {
@@ -173,6 +175,14 @@ fn run(seq: &[Step], r: &mut Report) {
         let reread_env_tree = { let t2 = tempfile::tempdir().unwrap(); data.env.write_to_layer_dir(t2.path()).unwrap(); let t3 = tempfile::tempdir().unwrap(); LayerEnv::read_from_layer_dir(&x).unwrap().write_to_layer_dir(t3.path()).unwrap(); (tree(t2.path()), tree(t3.path())) };
         if reread_env_tree.0 != reread_env_tree.1 || data.path != x || on_disk.as_ref().map(|l| (&l.metadata, l.types)) != Some((&data.content_metadata.metadata, data.content_metadata.types)) {
             fail("returned_data", "the returned layer data equals what is on disk", "env / metadata / types / path as on disk".into(), format!("path {:?} metadata {:?}", data.path, data.content_metadata));
+        }
+        // the returned environment applies like the one on disk, IMPLICIT layer paths (bin/ -> PATH) included
+        {
+            let fresh = LayerEnv::read_from_layer_dir(&x).unwrap();
+            for sc in [Scope::Build, Scope::Launch] {
+                let (a, b) = (data.env.apply_to_empty(sc.clone()), fresh.apply_to_empty(sc.clone()));
+                if a.get("PATH") != b.get("PATH") { fail("returned_data", "the returned layer data equals what is on disk: applying its environment gives the same PATH (implicit <layer>/bin entry)", format!("{sc:?}: {:?}", b.get("PATH")), format!("{:?}", a.get("PATH"))); }
+            }
         }
         // the returned environment itself (not via the writers): the per-process and launch entries the call-back returned are in it
         if (outcome == "create" || outcome == "update") && st.payload != 2 {
